@@ -512,8 +512,13 @@ impl Expansion<'_> {
                         if shared_attr_is_wrapping {
                             let placeholder =
                                 trait_name_to_default_placeholder_literal(trait_ident);
+                            // `{:p}` formats the reference it is given, not the bound field.
+                            let deref =
+                                (trait_ident == "Pointer").then(|| quote! { * });
 
-                            quote! { &derive_more::core::format_args!(#placeholder, #ident) }
+                            quote! {
+                                &derive_more::core::format_args!(#placeholder, #deref #ident)
+                            }
                         } else {
                             quote! {
                                 derive_more::core::fmt::#trait_ident::fmt(#ident, __derive_more_f)
